@@ -32,16 +32,17 @@ import (
 
 // Config describes one simulated network.
 type Config struct {
-	Seed      uint64
-	Label     string // makes keys of different worlds of one seed differ
-	ChainID   string
-	NVals     int      // genesis validators, all active
-	Powers    []uint64 // voting power of genesis validators (default 100)
-	NNodes    int      // validators 0..NNodes-1 run a node (default 1)
-	NRelayers int      // relayer group size incl. proposer (default 1)
-	Schnorr   bool     // relayer bitcoin key type
-	DiskDB    bool     // goleveldb instead of memdb (needed for restarts from disk)
-	GenTime   time.Time
+	Seed       uint64
+	Label      string // makes keys of different worlds of one seed differ
+	ChainID    string
+	NVals      int      // genesis validators, all active
+	Powers     []uint64 // voting power of genesis validators (default 100)
+	NNodes     int      // validators 0..NNodes-1 run a node (default 1)
+	MempoolMax int      // application mempool capacity (mempool.max-txs); 0 = the shipped default of 10
+	NRelayers  int      // relayer group size incl. proposer (default 1)
+	Schnorr    bool     // relayer bitcoin key type
+	DiskDB     bool     // goleveldb instead of memdb (needed for restarts from disk)
+	GenTime    time.Time
 
 	Locking func(*lockingtypes.GenesisState)
 	Relayer func(*relayertypes.GenesisState)
@@ -281,7 +282,11 @@ func (w *World) OpenNode(idx int, db dbm.DB, dbDir string) (*Node, error) {
 	v.Set("goat.geth", front.Sock)
 	v.Set("priv_validator_key_file", keyFile)
 	v.Set("home", dir)
-	v.Set("mempool.max-txs", 10)
+	mm := 10
+	if w.Cfg.MempoolMax > 0 {
+		mm = w.Cfg.MempoolMax
+	}
+	v.Set("mempool.max-txs", mm)
 	v.Set("minimum-gas-prices", "0gas")
 	v.Set("pruning", "nothing")
 	v.Set("chain-id", w.Cfg.ChainID)
